@@ -1052,7 +1052,10 @@ static int vc_motion(int cmd)
 		o1 = 0;
 		o2 = lbuf_eol(xb, r2);
 	}
-	back = r1 == r2 && o2 < o1;
+	/* F T and the repeats that search backward */
+	back = mv == 'F' || mv == 'T' ||
+		(mv == ';' && (vi_charcmd == 'F' || vi_charcmd == 'T')) ||
+		(mv == ',' && (vi_charcmd == 'f' || vi_charcmd == 't'));
 	if (r1 > r2) {
 		swap(&r1, &r2);
 		swap(&o1, &o2);
